@@ -141,7 +141,8 @@ impl<K: Hash + Eq, KH: KeyHasher<K>, S: BuildHasher> SampledLFU<K, KH, S> {
     /// get the remain space of SampledLRU
     #[inline]
     pub fn room_left(&self, cost: i64) -> i64 {
-        self.get_max_cost() - (self.used + cost)
+        // costs are arbitrary i64 values: the accounting is exact modulo 2^64 and never overflows
+        self.get_max_cost().wrapping_sub(self.used.wrapping_add(cost))
     }
 
     /// try to fill the SampledLFU by the given pairs.
@@ -175,14 +176,14 @@ impl<K: Hash + Eq, KH: KeyHasher<K>, S: BuildHasher> SampledLFU<K, KH, S> {
     pub fn increment_hashed_key(&mut self, key: u64, cost: i64) {
         // re-inserting a tracked key replaces its cost: only the difference is added
         let prev = self.key_costs.insert(key, cost).unwrap_or(0);
-        self.used += cost - prev;
+        self.used = self.used.wrapping_add(cost.wrapping_sub(prev));
     }
 
     /// Remove an entry from SampledLFU by hashed key
     #[inline]
     pub fn remove_hashed_key(&mut self, kh: u64) -> Option<i64> {
         self.key_costs.remove(&kh).inspect(|&cost| {
-            self.used -= cost;
+            self.used = self.used.wrapping_sub(cost);
         })
     }
 
@@ -222,7 +223,7 @@ impl<K: Hash + Eq, KH: KeyHasher<K>, S: BuildHasher> SampledLFU<K, KH, S> {
             None => false,
             Some(prev) => {
                 let prev_val = *prev;
-                self.used += cost - prev_val;
+                self.used = self.used.wrapping_add(cost.wrapping_sub(prev_val));
                 *prev = cost;
                 true
             }
